@@ -416,8 +416,17 @@ class _resolve_called_lambdas(ast.NodeTransformer):
         if isinstance(node.func, ast.Lambda):
             lambda_node = node.func
 
-            # Ensure the lambda has arguments and a body
-            if len(lambda_node.args.args) == len(node.args):
+            # Only plain parameters bound by plain positional arguments can be substituted
+            # (keyword-only, positional-only, *args and **kwargs parameters are not in `args.args`;
+            # a starred argument stands for any number of values)
+            plain = not (
+                lambda_node.args.posonlyargs
+                or lambda_node.args.kwonlyargs
+                or lambda_node.args.vararg
+                or lambda_node.args.kwarg
+                or any(isinstance(a, ast.Starred) for a in node.args)
+            )
+            if plain and len(lambda_node.args.args) == len(node.args):
                 arg_map = {
                     lambda_node.args.args[i].arg: self.visit(node.args[i])
                     for i in range(len(lambda_node.args.args))
